@@ -144,6 +144,9 @@ KANI_PATCHES = [
 INJECT = [
     # (source under /verif/harness, target module file, module name, kinds)
     ("kani/operators.rs", "src/engine/operators/mod.rs", "verif_kani_operators", ("kani",)),
+    ("kani/top_n.rs", "src/engine/operators/top_n.rs", "verif_kani_top_n", ("kani",)),
+    ("kani/merge_aggregate.rs", "src/engine/operators/merge_aggregate.rs", "verif_kani_merge_aggregate", ("kani",)),
+    ("kani/root.rs", "src/lib.rs", "verif_kani_root", ("kani",)),
     ("native/merge.rs", "src/engine/operators/merge.rs", "verif_nat_merge", ("native",)),
     ("native/merge_keep.rs", "src/engine/operators/merge_keep.rs", "verif_nat_merge_keep", ("native",)),
 ]
